@@ -279,6 +279,695 @@ Section PlanProofs.
   Qed.
 End PlanProofs.
 
+
+(* ------------------------------------------------------------------------------------------ *)
+(* A build from scratch ends in a finished state                                               *)
+(* ------------------------------------------------------------------------------------------ *)
+Definition ustat_later (U : universe) : Prop :=
+  forall done u todo, U = done ++ u :: todo ->
+    forall z, In z (done ++ [u]) -> forall p, In p (inp (ust z)) -> ~ In p (ustat u).
+
+Lemma ustat_later_from_split (U : universe) :
+  forall seen, ustat_later_from seen U = true ->
+  forall done u todo, U = done ++ u :: todo ->
+    forall z, In z seen \/ In z (done ++ [u]) -> forall p, In p (inp (ust z)) -> ~ In p (ustat u).
+Proof.
+  induction U as [|x U IH]; intros seen H done u todo E z Hz p Hp.
+  - destruct done; discriminate.
+  - cbn [ustat_later_from] in H. apply andb_true_iff in H. destruct H as [H1 H2].
+    destruct done as [|d done]; cbn in E; injection E as -> ->.
+    + rewrite forallb_forall in H1.
+      assert (Hin : In z (u :: seen)).
+      { destruct Hz as [Hz|Hz]; [right; exact Hz|]. cbn in Hz. destruct Hz as [<-|[]]. left. reflexivity. }
+      specialize (H1 z Hin). rewrite forallb_forall in H1. specialize (H1 p Hp).
+      apply negb_true_iff in H1. apply memN_false in H1. exact H1.
+    + apply (IH (d :: seen) H2 done u todo eq_refl z); [|exact Hp].
+      destruct Hz as [Hz|Hz]; [left; right; exact Hz|]. cbn in Hz.
+      destruct Hz as [<-|Hz]; [left; left; reflexivity|right; exact Hz].
+Qed.
+
+Lemma ustat_later_b_ok (U : universe) : ustat_later_b U = true -> ustat_later U.
+Proof.
+  intros H done u todo E z Hz p Hp.
+  apply (ustat_later_from_split U [] H done u todo E z (or_intror Hz) p Hp).
+Qed.
+
+(* chain_rev: only the elements of the list are consulted *)
+Lemma chain_rev_in (R : universe) (lk okc : N -> bool) (id : N) :
+  chain_rev R lk okc id = true -> In id (map uid R).
+Proof.
+  induction R as [|x R IH]; cbn [chain_rev]; intros H; [discriminate|].
+  destruct (uid x =? id) eqn:E.
+  - left. apply N.eqb_eq in E. exact E.
+  - right. apply IH. exact H.
+Qed.
+
+Lemma chain_rev_ext (R : universe) (lk lk' okc okc' : N -> bool) :
+  (forall x, In x R -> lk (uid x) = lk' (uid x) /\ okc (uid x) = okc' (uid x)) ->
+  forall id, chain_rev R lk okc id = chain_rev R lk' okc' id.
+Proof.
+  induction R as [|x R IH]; intros H id; [reflexivity|]. cbn [chain_rev].
+  assert (HR : forall z, In z R -> lk (uid z) = lk' (uid z) /\ okc (uid z) = okc' (uid z)).
+  { intros z Hz. apply H. right. exact Hz. }
+  destruct (uid x =? id) eqn:E; [|apply IH; exact HR].
+  apply N.eqb_eq in E. subst id. destruct (H x (or_introl eq_refl)) as [H1 _]. rewrite <- H1.
+  rewrite <- (IH HR (ucr x)). f_equal. f_equal.
+  destruct (chain_rev R lk okc (ucr x)) eqn:Ec; [|reflexivity]. cbn [andb].
+  apply chain_rev_in in Ec. apply in_map_iff in Ec. destruct Ec as (c & Hc & Hin).
+  rewrite <- Hc. apply (HR c Hin).
+Qed.
+
+Lemma chain_rev_mono (R : universe) (lk lk' okc okc' : N -> bool) :
+  (forall id, lk id = true -> lk' id = true) -> (forall id, okc id = true -> okc' id = true) ->
+  forall id, chain_rev R lk okc id = true -> chain_rev R lk' okc' id = true.
+Proof.
+  intros Hl Ho. induction R as [|x R IH]; intros id H; [discriminate|]. cbn [chain_rev] in *.
+  destruct (uid x =? id); [|apply IH; exact H].
+  apply andb_true_iff in H. destruct H as [H1 H2]. rewrite (Hl id H1). cbn [andb].
+  apply orb_true_iff in H2. apply orb_true_iff. destruct H2 as [H2|H2]; [left; exact H2|right].
+  apply andb_true_iff in H2. destruct H2 as [H3 H4]. rewrite (IH _ H3), (Ho _ H4). reflexivity.
+Qed.
+
+Lemma trusted_attached (U : universe) (y : psys) (id : N) :
+  trusted U y id = true -> attached U y id = true.
+Proof. unfold trusted, attached. apply chain_rev_mono; auto. Qed.
+
+(* the chain of a step that had its turn lies in the part of the universe before it *)
+Lemma chain_done_frame (U done rest : universe) (lk lk' okc okc' : N -> bool) (v : ustep) :
+  NoDup (map uid U) -> U = done ++ rest -> In v done ->
+  (forall x, In x done -> lk (uid x) = lk' (uid x) /\ okc (uid x) = okc' (uid x)) ->
+  chain_rev (rev U) lk okc (uid v) = chain_rev (rev U) lk' okc' (uid v).
+Proof.
+  intros Hnd E Hv Hag. rewrite E, rev_app_distr.
+  assert (Hn : ~ In (uid v) (map uid (rev rest))).
+  { rewrite map_rev, <- in_rev. intros Hin. rewrite E, map_app in Hnd.
+    apply (NoDup_app_disjoint _ _ (uid v) Hnd); [apply in_map; exact Hv|exact Hin]. }
+  rewrite !(chain_rev_skip (rev rest) (rev done) _ _ (uid v) Hn).
+  apply chain_rev_ext. intros x Hx. apply Hag. apply in_rev. exact Hx.
+Qed.
+
+(* pending propagation that finds nothing to do *)
+Lemma mark_keeps (todo : project) (d de : N -> bool) (st : N -> sstate) :
+  NoDup (map sid todo) ->
+  (forall s, In s todo -> st (sid s) = Succeeded ->
+             existsb d (inp s) = false /\ existsb de (envn s) = false) ->
+  (forall s z, In s todo -> In z todo -> st (sid s) = Pending -> st (sid z) = Succeeded ->
+               forall p, In p (inp z) -> ~ In p (out s)) ->
+  forall z, In z todo -> st (sid z) = Succeeded -> mark todo d de st (sid z) = Succeeded.
+Proof.
+  revert d st. induction todo as [|x rest IH]; intros d st Hnd H1 H2 z Hz Sz; [contradiction|].
+  pose proof (not_in_tail_ids x rest Hnd) as Hids.
+  assert (Hnd' : NoDup (map sid rest)) by (cbn in Hnd; inversion Hnd; assumption).
+  cbn [mark].
+  destruct (existsb d (inp x) || existsb de (envn x) || negb (is_succ (st (sid x)))) eqn:Ec.
+  - assert (Px : st (sid x) = Pending).
+    { destruct (st (sid x)) eqn:Ex; [reflexivity|]. exfalso.
+      destruct (H1 x (or_introl eq_refl) Ex) as [Ha Hb]. rewrite Ha, Hb in Ec. discriminate. }
+    destruct Hz as [->|Hz]; [congruence|].
+    apply IH; auto.
+    + intros s Hs Ss. rewrite upd_other in Ss by (apply Hids; exact Hs).
+      destruct (H1 s (or_intror Hs) Ss) as [Ha Hb]. split; [|exact Hb].
+      apply not_true_is_false. intros Ht. apply existsb_exists in Ht. destruct Ht as (p & Hp & Hd).
+      apply orb_true_iff in Hd. destruct Hd as [Hd|Hd].
+      * pose proof (existsb_false_all _ _ Ha p Hp). congruence.
+      * apply memN_In in Hd. exact (H2 x s (or_introl eq_refl) (or_intror Hs) Px Ss p Hp Hd).
+    + intros s q Hs Hq Ps Sq. rewrite upd_other in Ps by (apply Hids; exact Hs).
+      rewrite upd_other in Sq by (apply Hids; exact Hq).
+      exact (H2 s q (or_intror Hs) (or_intror Hq) Ps Sq).
+    + rewrite upd_other by (apply Hids; exact Hz). exact Sz.
+  - destruct Hz as [->|Hz].
+    + rewrite mark_elsewhere; [exact Sz|exact Hids].
+    + apply IH; auto.
+      * intros s Hs. apply H1. right. exact Hs.
+      * intros s q Hs Hq. apply H2; right; assumption.
+Qed.
+
+Lemma mark_pointwise_id (todo : project) (d de : N -> bool) (st : N -> sstate) :
+  NoDup (map sid todo) ->
+  (forall s, In s todo -> st (sid s) = Succeeded ->
+             existsb d (inp s) = false /\ existsb de (envn s) = false) ->
+  (forall s z, In s todo -> In z todo -> st (sid s) = Pending -> st (sid z) = Succeeded ->
+               forall p, In p (inp z) -> ~ In p (out s)) ->
+  forall id, mark todo d de st id = st id.
+Proof.
+  intros Hnd H1 H2 id. destruct (st id) eqn:E.
+  - destruct (mark todo d de st id) eqn:Em; [reflexivity|].
+    apply mark_only_lowers in Em. congruence.
+  - destruct (in_dec N.eq_dec id (map sid todo)) as [Hin|Hn].
+    + apply in_map_iff in Hin. destruct Hin as (z & <- & Hz). apply mark_keeps; auto.
+    + rewrite mark_elsewhere; [exact E|]. intros s Hs He. apply Hn. rewrite <- He. apply in_map. exact Hs.
+Qed.
+
+
+Lemma existsb_const_false {A} (l : list A) : existsb (fun _ => false) l = false.
+Proof. induction l; cbn; auto. Qed.
+
+Lemma avail_t_prod (U : universe) (y : psys) (p a q : N) :
+  avail_t U y p = Some a -> producer (uproj U) p = Some q ->
+  trusted U y q = true /\ stt (pbase y) q = Succeeded.
+Proof.
+  unfold avail_t. intros H E. rewrite E in H.
+  destruct (trusted U y q) eqn:Et; cbn in H; [|discriminate].
+  destruct (stt (pbase y) q) eqn:Es; cbn in H; [discriminate|]. auto.
+Qed.
+
+Lemma avail_p_prod (U : universe) (y : psys) (p a q : N) :
+  avail_p U y p = Some a -> producer (uproj U) p = Some q ->
+  attached U y q = true /\ stt (pbase y) q = Succeeded.
+Proof.
+  unfold avail_p. intros H E. rewrite E in H.
+  destruct (attached U y q) eqn:Et; cbn in H; [|discriminate].
+  destruct (stt (pbase y) q) eqn:Es; cbn in H; [discriminate|]. auto.
+Qed.
+
+Lemma relink_at (U : universe) (c : N) (kids : list N) (lk : N -> bool) (v : ustep) :
+  NoDup (map uid U) -> In v U ->
+  relink U c kids lk (uid v) = if ucr v =? c then memN (uid v) kids else lk (uid v).
+Proof.
+  intros Hnd Hv. unfold relink.
+  destruct (existsb (fun u0 => (uid u0 =? uid v) && (ucr u0 =? c)) U) eqn:E.
+  - apply existsb_exists in E. destruct E as (u0 & H0 & He). apply andb_true_iff in He.
+    destruct He as [He1 He2]. apply N.eqb_eq in He1.
+    rewrite (uid_unique U u0 v Hnd H0 Hv He1) in He2. rewrite He2. reflexivity.
+  - destruct (ucr v =? c) eqn:Ec; [|reflexivity]. exfalso.
+    assert (existsb (fun u0 => (uid u0 =? uid v) && (ucr u0 =? c)) U = true).
+    { apply existsb_exists. exists v. split; [exact Hv|]. rewrite N.eqb_refl, Ec. reflexivity. }
+    congruence.
+Qed.
+
+Section Scratch.
+  Variable run : N -> list (option N) -> list (option N) -> N -> N.
+  Variable plan : N -> list (option N) -> list (option N) -> list N.
+  Variable U : universe.
+  Hypothesis HW : WFU U.
+  Hypothesis HS : ustat_later U.
+  Variable w : world.
+
+  Notation defines := (EnginePlan.defines plan).
+
+  Lemma Hid : NoDup (map uid U).
+  Proof. destruct HW as [[H _] _]. rewrite map_sid_uproj in H. exact H. Qed.
+
+  Lemma Hnd : NoDup (outs (uproj U)).
+  Proof. destruct HW as [[_ [H _]] _]. exact H. Qed.
+
+  Definition Loc3 (y : psys) (u : ustep) : Prop :=
+    trusted U y (uid u) = true ->
+    if ready_t U y (ust u)
+    then stt (pbase y) (uid u) = Succeeded /\
+         forall p, In p (out (ust u)) ->
+                   fs (pbase y) p = Some (run (uid u) (map (fs (pbase y)) (inp (ust u)))
+                                              (map (ev (pbase y)) (envn (ust u))) p)
+    else stt (pbase y) (uid u) = Pending.
+
+  (* inputs of the steps up to [u] are no outputs of [u] *)
+  Lemma inputs_before (done todo : universe) (u v : ustep) (p : N) :
+    U = done ++ u :: todo -> In v (done ++ [u]) -> In p (inp (ust v)) -> ~ In p (out (ust u)).
+  Proof.
+    intros E Hv Hp. destruct HW as [[_ [_ Ht]] _]. rewrite E in Ht. unfold uproj in Ht.
+    rewrite map_app in Ht. cbn [map] in Ht. apply in_app_or in Hv. destruct Hv as [Hv|[<-|[]]].
+    - apply topo_app in Ht. destruct Ht as [_ Hd].
+      apply (Hd (ust v) p (ust u)); [apply in_map; exact Hv|exact Hp|left; reflexivity].
+    - apply topo_app in Ht. destruct Ht as [Ht _].
+      apply (topo_head (ust u) (map ust todo) Ht p (ust u) Hp). left. reflexivity.
+  Qed.
+
+  Lemma outputs_disjoint (u v : ustep) (p : N) :
+    In u U -> In v U -> uid v <> uid u -> In p (out (ust v)) -> ~ In p (out (ust u)).
+  Proof.
+    intros Hu Hv Hne Hp Hq. apply Hne.
+    assert (E : ust v = ust u).
+    { apply (out_unique (uproj U) (ust v) (ust u) p Hnd); auto; apply in_map; assumption. }
+    unfold uid. rewrite E. reflexivity.
+  Qed.
+
+  (* a change at [u] (its outputs, its state, links of later steps) does not disturb the
+     defining equation at a step that had its turn *)
+  Lemma loc3_frame (done todo : universe) (u v : ustep) (y y' : psys) :
+    U = done ++ u :: todo -> In v done ->
+    (forall p, ~ In p (out (ust u)) -> fs (pbase y') p = fs (pbase y) p) ->
+    (forall n, ev (pbase y') n = ev (pbase y) n) ->
+    (forall x, In x done -> stt (pbase y') (uid x) = stt (pbase y) (uid x) /\
+                            plk y' (uid x) = plk y (uid x)) ->
+    Loc3 y v -> Loc3 y' v.
+  Proof.
+    intros E Hv Hfs Hev Hdone HL.
+    assert (HvU : In v U). { rewrite E. apply in_or_app. left. exact Hv. }
+    assert (HuU : In u U). { rewrite E. apply in_or_app. right. left. reflexivity. }
+    assert (Htr : forall x, In x done -> trusted U y' (uid x) = trusted U y (uid x)).
+    { intros x Hx. unfold trusted.
+      apply (chain_done_frame U done (u :: todo) _ _ _ _ x Hid E Hx).
+      intros z Hz. destruct (Hdone z Hz) as [H1 H2]. rewrite H1, H2. auto. }
+    assert (Hinp : forall p, In p (inp (ust v)) -> ~ In p (out (ust u))).
+    { intros p Hp. apply (inputs_before done todo u v p E); [apply in_or_app; left; exact Hv|exact Hp]. }
+    assert (Hav : forall p, In p (inp (ust v)) -> avail_t U y' p = avail_t U y p).
+    { intros p Hp. unfold avail_t. destruct (producer (uproj U) p) as [q|] eqn:Eq.
+      - destruct (in_split v done Hv) as (d1 & m & Ed).
+        assert (Ev : U = d1 ++ v :: (m ++ u :: todo)).
+        { rewrite E, Ed. rewrite <- app_assoc. reflexivity. }
+        destruct (inp_producer_before U d1 _ v p q HW Ev Hp Eq) as (x & Hx & <- & _).
+        assert (Hxd : In x done). { rewrite Ed. apply in_or_app. left. exact Hx. }
+        rewrite (Htr x Hxd). destruct (Hdone x Hxd) as [H1 _]. rewrite H1.
+        rewrite (Hfs p (Hinp p Hp)). reflexivity.
+      - apply Hfs. apply Hinp. exact Hp. }
+    unfold Loc3 in *. rewrite (Htr v Hv). intros Ht. specialize (HL Ht).
+    rewrite (ready_t_ext U y' y (ust v) Hav). destruct (Hdone v Hv) as [Hsv _]. rewrite Hsv.
+    destruct (ready_t U y (ust v)); [|exact HL].
+    destruct HL as [H1 H2]. split; [exact H1|]. intros p Hp.
+    assert (Hne : uid v <> uid u).
+    { intros He. pose proof Hid as Hid'. rewrite E in Hid'. rewrite map_app in Hid'.
+      apply (NoDup_app_disjoint _ _ (uid v) Hid'); [apply in_map; exact Hv|].
+      left. symmetry. exact He. }
+    rewrite (Hfs p (outputs_disjoint u v p HuU HvU Hne Hp)). rewrite (H2 p Hp). f_equal. f_equal.
+    - apply map_ext_in. intros x Hx. symmetry. apply Hfs. apply Hinp. exact Hx.
+    - apply map_ext. intros n. symmetry. apply Hev.
+  Qed.
+  Record Inv (done todo : universe) (y : psys) : Prop := mkInv {
+    i_src : forall p, is_output (uproj U) p = false -> fs (pbase y) p = fst w p;
+    i_env : forall n, ev (pbase y) n = snd w n;
+    i_todo : forall u, In u todo -> stt (pbase y) (uid u) = Pending /\ tr (pbase y) (uid u) = None;
+    i_root : forall u, In u U -> ucr u = 0 -> plk y (uid u) = true;
+    i_lk1 : forall u, In u U -> ucr u <> 0 -> plk y (uid u) = true ->
+            exists c, In c done /\ uid c = ucr u /\ stt (pbase y) (uid c) = Succeeded;
+    i_lk2 : forall u c, In u U -> In c done -> uid c = ucr u -> stt (pbase y) (uid c) = Succeeded ->
+            plk y (uid u) = memN (uid u) (defines (pbase y) (ust c));
+    i_tr : forall u, In u U -> stt (pbase y) (uid u) = Succeeded -> trusted U y (uid u) = true;
+    i_loc : forall u, In u done -> Loc3 y u }.
+
+  Lemma ready_t_p (y : psys) (s : step) : ready_t U y s = true -> ready_p U y s = true.
+  Proof.
+    unfold ready_t, ready_p. rewrite !forallb_forall. intros H p Hp. specialize (H p Hp).
+    unfold avail_t, avail_p in *. destruct (producer (uproj U) p) as [q|]; [|exact H].
+    destruct (trusted U y q) eqn:Et; cbn in H; [|discriminate].
+    rewrite (trusted_attached U y q Et). exact H.
+  Qed.
+
+  (* nothing happens at [u] *)
+  Lemma inv_none (done todo : universe) (u : ustep) (y : psys) :
+    U = done ++ u :: todo -> Inv done (u :: todo) y -> Loc3 y u -> Inv (done ++ [u]) todo y.
+  Proof.
+    intros E I HL. destruct (i_todo _ _ _ I u (or_introl eq_refl)) as [Pu _].
+    constructor.
+    - apply (i_src _ _ _ I).
+    - apply (i_env _ _ _ I).
+    - intros v Hv. apply (i_todo _ _ _ I). right. exact Hv.
+    - apply (i_root _ _ _ I).
+    - intros v Hv Hc Hl. destruct (i_lk1 _ _ _ I v Hv Hc Hl) as (c & Hc1 & Hc2 & Hc3).
+      exists c. split; [apply in_or_app; left; exact Hc1|auto].
+    - intros v c Hv Hc He Hs. apply in_app_or in Hc. destruct Hc as [Hc|[<-|[]]].
+      + apply (i_lk2 _ _ _ I v c Hv Hc He Hs).
+      + congruence.
+    - apply (i_tr _ _ _ I).
+    - intros v Hv. apply in_app_or in Hv. destruct Hv as [Hv|[<-|[]]]; [apply (i_loc _ _ _ I v Hv)|exact HL].
+  Qed.
+
+  Lemma defines_frame (b b' : sys) (c : step) :
+    (forall p, In p (inp c) -> fs b' p = fs b p) -> (forall n, ev b' n = ev b n) ->
+    defines b' c = defines b c.
+  Proof.
+    intros H1 H2. unfold EnginePlan.defines. f_equal.
+    - apply map_ext_in. exact H1.
+    - apply map_ext. exact H2.
+  Qed.
+
+  (* [u] runs *)
+  Lemma inv_run (done todo : universe) (u : ustep) (y : psys) :
+    U = done ++ u :: todo -> Inv done (u :: todo) y ->
+    trusted U y (uid u) = true -> ready_p U y (ust u) = true ->
+    Inv (done ++ [u]) todo (p_run run plan U u y).
+  Proof.
+    intros E I Et Er. set (b := pbase y). set (y' := p_run run plan U u y).
+    assert (HuU : In u U). { rewrite E. apply in_or_app. right. left. reflexivity. }
+    assert (HdU : forall x, In x done -> In x U). { intros x Hx. rewrite E. apply in_or_app. left. exact Hx. }
+    assert (HtU : forall x, In x todo -> In x U). { intros x Hx. rewrite E. apply in_or_app. right. right. exact Hx. }
+    pose proof Hid as Hid'. rewrite E, map_app in Hid'. cbn [map] in Hid'.
+    assert (Hnu_done : forall x, In x done -> uid x <> uid u).
+    { intros x Hx He. apply (NoDup_app_disjoint _ _ (uid x) Hid'); [apply in_map; exact Hx|left; symmetry; exact He]. }
+    assert (Hnu_todo : forall x, In x todo -> uid x <> uid u).
+    { intros x Hx He. apply NoDup_remove_2 in Hid'. apply Hid'. apply in_or_app. right.
+      rewrite <- He. apply in_map. exact Hx. }
+    destruct (i_todo _ _ _ I u (or_introl eq_refl)) as [Pu Tu].
+    (* the steps that are SUCCEEDED had their turn *)
+    assert (Hsucc_done : forall z, In z U -> stt b (uid z) = Succeeded -> In z done).
+    { intros z Hz Sz. rewrite E in Hz. apply in_app_or in Hz. destruct Hz as [Hz|Hz]; [exact Hz|].
+      destruct (i_todo _ _ _ I z Hz) as [Pz _]. unfold b in Sz. congruence. }
+    (* a SUCCEEDED step, and [u], read only outputs of SUCCEEDED steps *)
+    assert (Hclosed : forall z, In z (done ++ [u]) -> (In z done -> stt b (uid z) = Succeeded) ->
+                      forall p s, In p (inp (ust z)) -> In s U -> In p (out (ust s)) ->
+                                  stt b (uid s) = Succeeded).
+    { intros z Hz Sz p s Hp Hs Hps.
+      assert (Eprod : producer (uproj U) p = Some (uid s)).
+      { apply (producer_of_out (uproj U) (ust s) p Hnd); [apply in_map; exact Hs|exact Hps]. }
+      apply in_app_or in Hz. destruct Hz as [Hz|[<-|[]]].
+      - specialize (Sz Hz). pose proof (i_tr _ _ _ I z (HdU z Hz) Sz) as Tz.
+        pose proof (i_loc _ _ _ I z Hz Tz) as L. fold b in L.
+        destruct (ready_t U y (ust z)) eqn:Erz; [|congruence].
+        destruct (ready_t_inputs U y (ust z) p Erz Hp) as [a Ha].
+        apply (avail_t_prod U y p a (uid s) Ha Eprod).
+      - unfold ready_p in Er. rewrite forallb_forall in Er. specialize (Er p Hp).
+        destruct (avail_p U y p) as [a|] eqn:Ea; [|discriminate].
+        apply (avail_p_prod U y p a (uid s) Ea Eprod). }
+    (* states after the run: only [u] changed *)
+    assert (Hst : forall id, stt (pbase y') id = upd (stt b) (uid u) Succeeded id).
+    { intros id. unfold y', p_run. cbn [pbase set_stt stt do_run]. fold b.
+      apply mark_pointwise_id.
+      - destruct HW as [[H _] _]. exact H.
+      - intros s Hs Ss. split; [|apply existsb_const_false].
+        apply in_uproj in Hs. destruct Hs as (z & Hz & <-).
+        assert (Hzd : In z (done ++ [u])).
+        { fold (uid z) in Ss. destruct (N.eq_dec (uid z) (uid u)) as [He|Hne].
+          - rewrite (uid_unique U z u Hid Hz HuU He). apply in_or_app. right. left. reflexivity.
+          - rewrite upd_other in Ss by exact Hne. apply in_or_app. left. apply Hsucc_done; assumption. }
+        apply not_true_is_false. intros Hex. apply existsb_exists in Hex. destruct Hex as (p & Hp & Hm).
+        apply memN_In in Hm. exact (HS done u todo E z Hzd p Hp Hm).
+      - intros s z Hs Hz Ps Sz p Hp Hps.
+        apply in_uproj in Hs. destruct Hs as (s0 & Hs0 & <-). apply in_uproj in Hz. destruct Hz as (z0 & Hz0 & <-).
+        fold (uid s0) in Ps. fold (uid z0) in Sz.
+        assert (Hne : uid s0 <> uid u). { intros He. rewrite He, upd_same in Ps. discriminate. }
+        rewrite upd_other in Ps by exact Hne.
+        assert (Hzd : In z0 (done ++ [u]) /\ (In z0 done -> stt b (uid z0) = Succeeded)).
+        { destruct (N.eq_dec (uid z0) (uid u)) as [He|Hnz].
+          - rewrite (uid_unique U z0 u Hid Hz0 HuU He). split; [apply in_or_app; right; left; reflexivity|].
+            intros Hin. exfalso. exact (Hnu_done u Hin eq_refl).
+          - rewrite upd_other in Sz by exact Hnz. split; [apply in_or_app; left; apply Hsucc_done; assumption|auto]. }
+        destruct Hzd as [Hzd Hzs].
+        pose proof (Hclosed z0 Hzd Hzs p s0 Hp Hs0 Hps) as Hc. congruence. }
+    assert (Hfs_o : forall p, ~ In p (out (ust u)) -> fs (pbase y') p = fs b p).
+    { intros p Hp. unfold y', p_run. cbn [pbase set_stt fs]. apply (fs_do_run_other run). exact Hp. }
+    assert (Hev : forall n, ev (pbase y') n = ev b n) by reflexivity.
+    assert (Hlk : forall v, In v U ->
+                  plk y' (uid v) = if ucr v =? uid u then memN (uid v) (defines b (ust u)) else plk y (uid v)).
+    { intros v Hv. unfold y', p_run. cbn [plk]. apply (relink_at U _ _ _ v Hid Hv). }
+    assert (Hinp_u : forall v, In v (done ++ [u]) -> forall p, In p (inp (ust v)) -> fs (pbase y') p = fs b p).
+    { intros v Hv p Hp. apply Hfs_o. apply (inputs_before done todo u v p E Hv Hp). }
+    assert (Hdef : forall c, In c (done ++ [u]) -> defines (pbase y') (ust c) = defines b (ust c)).
+    { intros c Hc. apply defines_frame; [apply (Hinp_u c Hc)|exact Hev]. }
+    (* the children of [u] were not linked before *)
+    assert (Hkid0 : forall v, In v U -> ucr v = uid u -> plk y (uid v) = false).
+    { intros v Hv Hc. destruct (plk y (uid v)) eqn:El; [|reflexivity]. exfalso.
+      assert (Hcz : ucr v <> 0). { rewrite Hc. destruct HW as [_ Hcf]. apply (Hcf done u todo E). }
+      destruct (i_lk1 _ _ _ I v Hv Hcz El) as (c & Hc1 & Hc2 & _). apply (Hnu_done c Hc1). congruence. }
+    assert (Hdone_same : forall x, In x done -> stt (pbase y') (uid x) = stt b (uid x) /\ plk y' (uid x) = plk y (uid x)).
+    { intros x Hx. split.
+      - rewrite Hst. apply upd_other. apply Hnu_done. exact Hx.
+      - rewrite (Hlk x (HdU x Hx)). destruct (ucr x =? uid u) eqn:Ec; [|reflexivity].
+        apply N.eqb_eq in Ec. exfalso.
+        destruct (in_split x done Hx) as (d1 & m & Ed).
+        assert (Ex : U = d1 ++ x :: (m ++ u :: todo)). { rewrite E, Ed, <- app_assoc. reflexivity. }
+        destruct HW as [_ Hcf]. destruct (Hcf d1 x _ Ex) as [_ [H0|Hin]].
+        + destruct (Hcf done u todo E) as [Hu0 _]. congruence.
+        + rewrite Ec in Hin. apply in_map_iff in Hin. destruct Hin as (c & Hc1 & Hc2).
+          apply (Hnu_done c); [rewrite Ed; apply in_or_app; left; exact Hc2|exact Hc1]. }
+    (* trusted only grows *)
+    assert (Htmono : forall id, trusted U y id = true -> trusted U y' id = true).
+    { intros id. unfold trusted. apply chain_rev_mono.
+      - intros i Hi. destruct (in_dec N.eq_dec i (map uid U)) as [Hin|Hn].
+        + apply in_map_iff in Hin. destruct Hin as (v & <- & Hv). rewrite (Hlk v Hv).
+          destruct (ucr v =? uid u) eqn:Ec; [|exact Hi]. apply N.eqb_eq in Ec.
+          rewrite (Hkid0 v Hv Ec) in Hi. discriminate.
+        + unfold y', p_run. cbn [plk]. unfold relink.
+          destruct (existsb (fun u0 => (uid u0 =? i) && (ucr u0 =? uid u)) U) eqn:Ex; [|exact Hi].
+          exfalso. apply existsb_exists in Ex. destruct Ex as (u0 & H0 & He). apply andb_true_iff in He.
+          destruct He as [He _]. apply N.eqb_eq in He. apply Hn. rewrite <- He. apply in_map. exact H0.
+      - intros i Hi. rewrite Hst. unfold upd. destruct (i =? uid u); [reflexivity|exact Hi]. }
+    constructor.
+    - intros p Hp. rewrite Hfs_o; [apply (i_src _ _ _ I p Hp)|].
+      intros Hin. apply is_output_false in Hp. apply Hp. apply in_outs. exists (ust u).
+      split; [apply in_map; exact HuU|exact Hin].
+    - intros n. rewrite Hev. apply (i_env _ _ _ I).
+    - intros v Hv. destruct (i_todo _ _ _ I v (or_intror Hv)) as [Pv Tv]. split.
+      + rewrite Hst, upd_other by (apply Hnu_todo; exact Hv). exact Pv.
+      + unfold y', p_run. cbn [pbase set_stt tr do_run]. rewrite upd_other by (apply Hnu_todo; exact Hv). exact Tv.
+    - intros v Hv Hc. rewrite (Hlk v Hv).
+      destruct (ucr v =? uid u) eqn:Ec; [|apply (i_root _ _ _ I v Hv Hc)].
+      apply N.eqb_eq in Ec. exfalso. destruct HW as [_ Hcf]. destruct (Hcf done u todo E) as [Hu0 _]. congruence.
+    - intros v Hv Hc Hl. rewrite (Hlk v Hv) in Hl. destruct (ucr v =? uid u) eqn:Ec.
+      + apply N.eqb_eq in Ec. exists u. split; [apply in_or_app; right; left; reflexivity|].
+        split; [symmetry; exact Ec|]. rewrite Hst. apply upd_same.
+      + destruct (i_lk1 _ _ _ I v Hv Hc Hl) as (c & Hc1 & Hc2 & Hc3). exists c.
+        split; [apply in_or_app; left; exact Hc1|]. split; [exact Hc2|].
+        rewrite (proj1 (Hdone_same c Hc1)). exact Hc3.
+    - intros v c Hv Hc He Hs. rewrite (Hdef c Hc). rewrite (Hlk v Hv).
+      apply in_app_or in Hc. destruct Hc as [Hc|[<-|[]]].
+      + assert (Ec : ucr v =? uid u = false).
+        { apply N.eqb_neq. rewrite <- He. apply Hnu_done. exact Hc. }
+        rewrite Ec. rewrite (proj1 (Hdone_same c Hc)) in Hs. apply (i_lk2 _ _ _ I v c Hv Hc He Hs).
+      + rewrite <- He, N.eqb_refl. reflexivity.
+    - intros v Hv Sv. rewrite Hst in Sv. destruct (N.eq_dec (uid v) (uid u)) as [He|Hne].
+      + rewrite He. apply Htmono. exact Et.
+      + rewrite upd_other in Sv by exact Hne. apply Htmono. apply (i_tr _ _ _ I v Hv Sv).
+    - intros v Hv. apply in_app_or in Hv. destruct Hv as [Hv|[<-|[]]].
+      + apply (loc3_frame done todo u v y y' E Hv Hfs_o Hev Hdone_same). apply (i_loc _ _ _ I v Hv).
+      + (* the equation at [u] itself *)
+        intros _.
+        assert (Hrt : ready_t U y' (ust u) = true).
+        { unfold ready_t. rewrite forallb_forall. intros p Hp.
+          unfold ready_p in Er. rewrite forallb_forall in Er. specialize (Er p Hp).
+          destruct (avail_p U y p) as [a|] eqn:Ea; [|discriminate].
+          assert (Hfp : fs (pbase y') p = fs b p).
+          { apply (Hinp_u u); [apply in_or_app; right; left; reflexivity|exact Hp]. }
+          unfold avail_t. destruct (producer (uproj U) p) as [q|] eqn:Eq.
+          - destruct (avail_p_prod U y p a q Ea Eq) as [Hatt Hsq].
+            assert (Hfb : fs b p = Some a).
+            { unfold avail_p in Ea. rewrite Eq, Hatt, Hsq in Ea. exact Ea. }
+            pose proof Eq as Eq'. apply producer_some in Eq'. destruct Eq' as (s & Hs & Hsq' & _).
+            apply in_uproj in Hs. destruct Hs as (s0 & Hs0 & Hs1).
+            assert (Hq : uid s0 = q). { unfold uid. rewrite Hs1. exact Hsq'. }
+            assert (Htq : trusted U y' q = true).
+            { apply Htmono. rewrite <- Hq. apply (i_tr _ _ _ I s0 Hs0). rewrite Hq. exact Hsq. }
+            assert (Hsq2 : stt (pbase y') q = Succeeded).
+            { rewrite Hst. unfold upd. destruct (q =? uid u); [reflexivity|exact Hsq]. }
+            rewrite Htq, Hsq2, Hfp, Hfb. reflexivity.
+          - unfold avail_p in Ea. rewrite Eq in Ea. rewrite Hfp. fold b in Ea. rewrite Ea. reflexivity. }
+        rewrite Hrt. split; [rewrite Hst; apply upd_same|].
+        intros p Hp.
+        assert (Hndu : NoDup (out (ust u))). { apply (out_nodup (uproj U) (ust u) Hnd). apply in_map. exact HuU. }
+        assert (Hout : fs (pbase y') p = fs (do_run run (ust u) b) p) by reflexivity.
+        rewrite Hout, (fs_do_run_out run (ust u) b p Hndu Hp). f_equal. f_equal.
+        apply map_ext_in. intros x Hx. symmetry.
+        apply (Hinp_u u); [apply in_or_app; right; left; reflexivity|exact Hx].
+  Qed.
+  Lemma inv_step (done todo : universe) (u : ustep) (y : psys) :
+    U = done ++ u :: todo -> Inv done (u :: todo) y ->
+    Inv (done ++ [u]) todo (p_step_build run plan U u y).
+  Proof.
+    intros E I. destruct (i_todo _ _ _ I u (or_introl eq_refl)) as [Pu Tu].
+    unfold p_step_build, p_decide.
+    destruct (trusted U y (uid u)) eqn:Et; cbn [negb].
+    2:{ apply inv_none; auto. intros Ht. congruence. }
+    rewrite Pu. cbn [is_succ].
+    destruct (ready_p U y (ust u)) eqn:Er; cbn [negb].
+    2:{ apply inv_none; auto. intros _. destruct (ready_t U y (ust u)) eqn:Ert; [|exact Pu].
+        apply ready_t_p in Ert. congruence. }
+    unfold can_skip. change (sid (ust u)) with (uid u). rewrite Tu. apply inv_run; auto.
+  Qed.
+
+  Lemma inv_pass (todo : universe) : forall done y,
+    U = done ++ todo -> Inv done todo y ->
+    Inv U [] (fold_left (fun y u => p_step_build run plan U u y) todo y).
+  Proof.
+    induction todo as [|u todo IH]; intros done y E I.
+    - rewrite app_nil_r in E. subst done. exact I.
+    - cbn [fold_left]. apply (IH (done ++ [u])); [rewrite <- app_assoc; exact E|].
+      apply inv_step; assumption.
+  Qed.
+
+  Lemma inv_start : Inv [] U (p_resync U (p_empty U) w).
+  Proof.
+    assert (Hp : forall id, stt (pbase (p_resync U (p_empty U) w)) id = Pending).
+    { intros id. cbn. destruct (mark (uproj U) _ _ (fun _ => Pending) id) eqn:Em; [reflexivity|].
+      apply mark_only_lowers in Em. discriminate. }
+    constructor.
+    - intros p Hpo. cbn. rewrite Hpo. reflexivity.
+    - reflexivity.
+    - intros u _. split; [apply Hp|reflexivity].
+    - intros u Hu Hc. cbn. apply existsb_exists. exists u. split; [exact Hu|].
+      rewrite N.eqb_refl, Hc. reflexivity.
+    - intros u Hu Hc Hl. exfalso. cbn in Hl. apply existsb_exists in Hl. destruct Hl as (u0 & H0 & He).
+      apply andb_true_iff in He. destruct He as [He1 He2]. apply N.eqb_eq in He1, He2.
+      rewrite (uid_unique U u0 u Hid H0 Hu He1) in He2. contradiction.
+    - intros u c _ [].
+    - intros u _ Hs. rewrite Hp in Hs. discriminate.
+    - intros u [].
+  Qed.
+
+  Lemma inv_finished (y : psys) : Inv U [] y -> Finished_p run plan U y.
+  Proof.
+    intros I u Hu. unfold Local_p. cbv zeta. split; [|split].
+    - apply (i_root _ _ _ I u Hu).
+    - intros c Hc He _ Hs. apply (i_lk2 _ _ _ I u c Hu Hc He Hs).
+    - apply (i_loc _ _ _ I u Hu).
+  Qed.
+
+  (* the defining equations only look at files, environment, and the states and links of the
+     steps of the universe *)
+  Lemma finished_ext (y z : psys) :
+    (forall p, fs (pbase z) p = fs (pbase y) p) -> (forall n, ev (pbase z) n = ev (pbase y) n) ->
+    (forall u, In u U -> stt (pbase z) (uid u) = stt (pbase y) (uid u) /\ plk z (uid u) = plk y (uid u)) ->
+    Finished_p run plan U y -> Finished_p run plan U z.
+  Proof.
+    intros Hf He Hs F.
+    assert (Htr : forall id, trusted U z id = trusted U y id).
+    { intros id. unfold trusted. apply chain_rev_ext. intros x Hx. apply in_rev in Hx.
+      destruct (Hs x Hx) as [H1 H2]. rewrite H1, H2. auto. }
+    assert (Hav : forall p, avail_t U z p = avail_t U y p).
+    { intros p. unfold avail_t. destruct (producer (uproj U) p) as [q|] eqn:Eq; [|apply Hf].
+      apply producer_some in Eq. destruct Eq as (s & Hin & <- & _). apply in_uproj in Hin.
+      destruct Hin as (s0 & H0 & <-). fold (uid s0). rewrite Htr, (proj1 (Hs s0 H0)), Hf. reflexivity. }
+    assert (Hdef : forall c, defines (pbase z) c = defines (pbase y) c).
+    { intros c. apply defines_frame; auto. }
+    intros u Hu. destruct (F u Hu) as (L1 & L2 & L3). unfold Local_p. cbv zeta.
+    destruct (Hs u Hu) as [Su Lu]. split; [|split].
+    - intros Hc. rewrite Lu. auto.
+    - intros c Hc Hce Ht Hsc. rewrite Lu, Hdef. rewrite Htr in Ht. rewrite (proj1 (Hs c Hc)) in Hsc. auto.
+    - rewrite Htr. intros Ht. specialize (L3 Ht).
+      rewrite (ready_t_ext U z y (ust u) (fun p _ => Hav p)). rewrite Su.
+      destruct (ready_t U y (ust u)); [|exact L3]. destruct L3 as [H1 H2]. split; [exact H1|].
+      intros p Hp. rewrite Hf, (H2 p Hp). f_equal. f_equal.
+      + apply map_ext. intros x. symmetry. apply Hf.
+      + apply map_ext. intros n. symmetry. apply He.
+  Qed.
+
+  Lemma alive_in (V : universe) (att : N -> bool) (u : ustep) :
+    In u V -> att (uid u) = true -> In (uid u) (alive V att).
+  Proof.
+    induction V as [|x V IH]; intros Hu Ha; [contradiction|]. cbn [alive].
+    destruct Hu as [->|Hu].
+    - rewrite Ha. cbn [orb]. left. reflexivity.
+    - specialize (IH Hu Ha).
+      destruct (att (uid x) || existsb (fun c => memN (uid c) (alive V att) &&
+                 existsb (fun p => memN p (out (ust x))) (inp (ust c))) V); [right|]; exact IH.
+  Qed.
+
+  Lemma attached_unfold (y : psys) (done todo : universe) (u : ustep) :
+    U = done ++ u :: todo ->
+    attached U y (uid u) = plk y (uid u) && ((ucr u =? 0) || attached U y (ucr u)).
+  Proof.
+    intros E. unfold attached. rewrite (chain_unfold U (plk y) _ done todo u HW E).
+    rewrite andb_true_r. reflexivity.
+  Qed.
+
+  Lemma cleanup_finished (y : psys) : Inv U [] y -> Finished_p run plan U (p_cleanup U y).
+  Proof.
+    intros I. pose proof (inv_finished y I) as F. unfold p_cleanup.
+    destruct (p_ok U y); [|exact F].
+    set (al := alive U (attached U y)).
+    assert (Hatt_al : forall v, In v U -> attached U y (uid v) = true -> memN (uid v) al = true).
+    { intros v Hv Ha. apply memN_In. apply alive_in; assumption. }
+    assert (Hsucc_att : forall v, In v U -> stt (pbase y) (uid v) = Succeeded -> attached U y (uid v) = true).
+    { intros v Hv Sv. apply trusted_attached. apply (i_tr _ _ _ I v Hv Sv). }
+    apply (finished_ext y); [reflexivity|reflexivity| |exact F].
+    intros u Hu. cbn [pbase stt plk]. split.
+    - destruct (memN (uid u) al) eqn:Em; [reflexivity|].
+      destruct (stt (pbase y) (uid u)) eqn:Es; [reflexivity|].
+      rewrite (Hatt_al u Hu (Hsucc_att u Hu Es)) in Em. discriminate.
+    - destruct (plk y (uid u)) eqn:El; [|rewrite andb_false_r; reflexivity].
+      destruct (in_split u U Hu) as (done & todo & E).
+      assert (Hcr : ucr u = 0 \/ exists c, In c U /\ uid c = ucr u /\ attached U y (uid c) = true).
+      { destruct (N.eq_dec (ucr u) 0) as [H0|Hn0]; [left; exact H0|right].
+        destruct (i_lk1 _ _ _ I u Hu Hn0 El) as (c & Hc & Hce & Hcs). exists c.
+        split; [exact Hc|]. split; [exact Hce|]. apply Hsucc_att; assumption. }
+      assert (Hau : attached U y (uid u) = true).
+      { rewrite (attached_unfold y done todo u E), El. cbn [andb].
+        destruct Hcr as [H0|(c & _ & Hce & Hca)]; [rewrite H0; reflexivity|].
+        rewrite <- Hce, Hca. apply orb_true_r. }
+      rewrite (Hatt_al u Hu Hau). cbn [andb]. apply forallb_forall. intros x Hx.
+      destruct (uid x =? uid u) eqn:Ex; [|reflexivity]. cbn [negb orb].
+      apply N.eqb_eq in Ex. rewrite (uid_unique U x u Hid Hx Hu Ex).
+      destruct Hcr as [H0|(c & Hc & Hce & Hca)]; [rewrite H0; reflexivity|].
+      rewrite <- Hce, (Hatt_al c Hc Hca). apply orb_true_r.
+  Qed.
+
+  (* the world is what the build was given *)
+  Lemma cleanup_world (y : psys) :
+    Inv U [] y ->
+    (forall p, is_output (uproj U) p = false -> fs (pbase (p_cleanup U y)) p = fst w p) /\
+    (forall n, ev (pbase (p_cleanup U y)) n = snd w n).
+  Proof.
+    intros I. unfold p_cleanup. destruct (p_ok U y); cbn [pbase fs ev]; split;
+      first [apply (i_src _ _ _ I) | apply (i_env _ _ _ I)].
+  Qed.
+
+  Theorem scratch_finished :
+    Finished_p run plan U (build_world_p run plan U w (p_empty U)) /\
+    (forall p, is_output (uproj U) p = false ->
+               fs (pbase (build_world_p run plan U w (p_empty U))) p = fst w p) /\
+    (forall n, ev (pbase (build_world_p run plan U w (p_empty U))) n = snd w n).
+  Proof.
+    unfold build_world_p, p_build, p_pass.
+    pose proof (inv_pass U [] _ eq_refl inv_start) as I.
+    split; [apply cleanup_finished; exact I|apply cleanup_world; exact I].
+  Qed.
+End Scratch.
+
+(* every build leaves the sources and the environment of the world it was given *)
+Section World.
+  Variable run : N -> list (option N) -> list (option N) -> N -> N.
+  Variable plan : N -> list (option N) -> list (option N) -> list N.
+  Variable U : universe.
+
+  Definition has_world (w : world) (y : psys) : Prop :=
+    (forall p, is_output (uproj U) p = false -> fs (pbase y) p = fst w p) /\
+    (forall n, ev (pbase y) n = snd w n).
+
+  Lemma step_build_world (w : world) (u : ustep) (y : psys) :
+    In u U -> has_world w y -> has_world w (p_step_build run plan U u y).
+  Proof.
+    intros Hu [H1 H2]. unfold p_step_build. destruct (p_decide U u y); [split; assumption| |].
+    - split; assumption.
+    - split; [|exact H2]. intros p Hp. unfold p_run. cbn [pbase set_stt fs].
+      rewrite (fs_do_run_other run); [apply H1; exact Hp|].
+      intros Hin. apply is_output_false in Hp. apply Hp. apply in_outs. exists (ust u).
+      split; [apply in_map; exact Hu|exact Hin].
+  Qed.
+
+  Lemma pass_world (w : world) (todo : universe) : forall y,
+    (forall u, In u todo -> In u U) -> has_world w y ->
+    has_world w (fold_left (fun y u => p_step_build run plan U u y) todo y).
+  Proof.
+    induction todo as [|u todo IH]; intros y Hs H; [exact H|]. cbn [fold_left]. apply IH.
+    - intros v Hv. apply Hs. right. exact Hv.
+    - apply step_build_world; [apply Hs; left; reflexivity|exact H].
+  Qed.
+
+  Lemma build_world_p_world (w : world) (y : psys) : has_world w (build_world_p run plan U w y).
+  Proof.
+    unfold build_world_p, p_build, p_pass.
+    assert (H0 : has_world w (p_resync U y w)).
+    { split; [|reflexivity]. intros p Hp. cbn. rewrite Hp. reflexivity. }
+    pose proof (pass_world w U _ (fun u H => H) H0) as [H1 H2].
+    unfold p_cleanup. destruct (p_ok U _); split; assumption.
+  Qed.
+End World.
+
+(* A state with the defining equations of a finished build and the sources and environment of [w]
+   IS the result of building [w] from scratch (up to the observable result). *)
+Theorem finished_is_scratch run plan (U : universe) (w : world) (y : psys) :
+  wf_u U = true -> ustat_later_b U = true ->
+  Finished_p run plan U y -> has_world U w y ->
+  same_result_p U y (build_world_p run plan U w (p_empty U)).
+Proof.
+  intros Hwf Hus F [H1 H2].
+  destruct (scratch_finished run plan U (wf_u_WFU U Hwf) (ustat_later_b_ok U Hus) w) as (Fs & S1 & S2).
+  apply (finished_p_unique run plan U y _ Hwf F Fs). split.
+  - intros p Hp. rewrite (H1 p Hp), (S1 p Hp). reflexivity.
+  - intros n. rewrite H2, S2. reflexivity.
+Qed.
+
+(* The full statement, conditionally: after ANY history of worlds, if the last build ends in a
+   state with the defining equations, its result is the one of a build from scratch. *)
+Theorem plan_history_finished_implies_scratch run plan (U : universe) :
+  wf_u U = true -> ustat_later_b U = true ->
+  forall (ws : list world) (w : world),
+    let inc := build_world_p run plan U w
+                 (fold_left (fun s x => build_world_p run plan U x s) ws (p_empty U)) in
+    Finished_p run plan U inc ->
+    same_result_p U inc (build_world_p run plan U w (p_empty U)).
+Proof.
+  intros Hwf Hus ws w inc F. apply (finished_is_scratch run plan U w inc Hwf Hus F).
+  apply build_world_p_world.
+Qed.
+
 (* ------------------------------------------------------------------------------------------ *)
 (* Witnesses: the other half (every build ends in a finished state) is false                   *)
 (* ------------------------------------------------------------------------------------------ *)
